@@ -11,7 +11,7 @@ def check(rep):
     ER.rule_hash_pure(ctx, rid="C01.HASH-PRIMITIVE")
     ER.rule_value_keyed_caches(ctx, rid="C01.NO-VALUE-KEYED-CACHE", modules={"binning/binning.py", "experiment_evaluator.py"})
     ER.rule_retained_arguments(ctx, rid="C01.NO-RETAINED-ARGUMENT")
-    ER.rule_call_forwards(ctx, rid="C01.CALL-FORWARDS")
+    ER.rule_call_forwards(ctx, rid="C01.CALL-FORWARDS", aspects=("result",))
     ER.rule_skip_guard(ctx, rid="C01.SKIP-GUARD")
     ER.rule_fingerprint_recorded(ctx, rid="C01.FINGERPRINT-RECORDED")
     ER.rule_installed_function(ctx, rid="C01.INSTALLED-FUNCTION", strict=False, facets=("namespace", "installed"))
